@@ -3,17 +3,20 @@ pub mod c02;
 pub mod c03;
 pub mod c04;
 pub mod c05;
+pub mod c06;
+pub mod c07;
 
 use symcore::Config;
 
 pub fn instances(prop: &str, tier: &str, seed: u64) -> Vec<String> {
-    let _ = seed;
     match prop {
         "C01" => c01::instances(tier),
         "C02" => c02::instances(tier),
         "C03" => c03::instances(tier),
         "C04" => c04::instances(tier),
         "C05" => c05::instances(tier),
+        "C06" => c06::instances(tier, seed),
+        "C07" => c07::instances(tier, seed),
         _ => vec![],
     }
 }
@@ -27,6 +30,8 @@ pub fn body(prop: &str, inst: &str) {
         "C03" => c03::body(inst),
         "C04" => c04::body(inst),
         "C05" => c05::body(inst),
+        "C06" => c06::body(inst),
+        "C07" => c07::body(inst),
         _ => panic!("unknown property {}", prop),
     }
 }
